@@ -199,6 +199,19 @@ impl StorageEngine {
 //@@ body
 //@@ end
 
+//@@ unit smembers fn src/storage/engine.rs StorageEngine::smembers
+//@@   params drop "db: DatabaseIndex" add "shard_guard: &mut DatabaseShard"
+//@@   rewrite R2
+//@@   rewrite RXPR "set.iter().cloned().collect()" "verif_members_vec(set)"
+    fn smembers(&self, shard_guard: &mut DatabaseShard, key: &[u8]) -> (r: Result<Vec<Vec<u8>>>)
+        ensures
+            unchanged(eff(*old(shard_guard), key_of(key@)), sv(*final(shard_guard))),
+            holds_non_set(eff(*old(shard_guard), key_of(key@)), key_of(key@)) ==> r is Err,
+            !eff(*old(shard_guard), key_of(key@)).data.contains_key(key_of(key@)) ==> (r matches Ok(v) && v@.len() == 0),
+            set_at(eff(*old(shard_guard), key_of(key@)), key_of(key@)) matches Some(m) ==> (r matches Ok(v) && v@.no_duplicates() && v@.to_set() == m),
+//@@ body
+//@@ end
+
 //@@ unit scard fn src/storage/engine.rs StorageEngine::scard
 //@@   params drop "db: DatabaseIndex" add "shard_guard: &mut DatabaseShard"
 //@@   rewrite R2
